@@ -120,6 +120,7 @@ type flatOpts struct {
 	sameNames bool // all types share the field names (csv accepts that)
 	safe      bool // only unproblematic names and values
 	uniform   bool // exactly one record type (arrows and parquet accept nothing else)
+	nulls     bool // null values among the fields (vng: a null-runs segment after the values segment)
 }
 
 var safeNames = []string{"a", "b", "c", "d", "e", "ts", "_path", "id"}
@@ -137,7 +138,7 @@ func genFlat(r *Rng, zctx *zed.Context, n int, o flatOpts) []zed.Value {
 	}
 	shapes := genFlatShapes(r, zctx, nt, o.sameNames, o.minCols, o.maxCols, o.pad)
 	flatNames = save
-	nulls := !o.safe && r.Chance(1, 2)
+	nulls := (!o.safe && r.Chance(1, 2)) || o.nulls
 	cur := 0
 	runLen := 1 + r.Intn(4)
 	var out []zed.Value
@@ -225,6 +226,13 @@ func genCase(r *Rng, class string, n int) (vals []zed.Value, safe bool) {
 	big := strings.HasPrefix(class, "big:")
 	class = strings.TrimPrefix(class, "big:")
 	switch class {
+	case "anynull":
+		// columnar output: every vector with a null gets a null-runs segment written
+		// right after its values segment
+		if r.Chance(1, 2) && n > 0 {
+			return genFlat(r, zctx, n, flatOpts{pad: big || n >= 60 || r.Chance(1, 2), minCols: 1, multi: r.Bool(), nulls: true}), false
+		}
+		fallthrough
 	case "any", "anynu":
 		if r.Chance(2, 5) || n >= 60 {
 			return genFlat(r, zctx, n, flatOpts{pad: big || n >= 60 || r.Chance(1, 2), minCols: 1, multi: r.Bool(), safe: true}), true
